@@ -38,13 +38,14 @@ def handle (op : String) (j : Json) : Option (R Json) :=
       let f ← cfArrOfJson j
       let al ← getFloats j "alpha"; let sh ← getInts j "oshape"
       let sf ← getFloats j "shift"; let off ← getInts j "offset"
-      let un ← getBool j "unitary"
+      -- "unitary": null — the call omits the flag: the default regenerated from dft2's signature
+      let un ← match optVal j "unitary" with | some (Json.bool b) => pure b | _ => pure Gen.fwDft2DefaultUnitary
       pure (okJ [("F", cfArrToJson (dft2 f al[0]! al[1]! sh[0]! sh[1]! sf[0]! sf[1]! off[0]! off[1]! un))])
   | "c01.idft2" => some do
       let f ← cfArrOfJson j
       let al ← getFloats j "alpha"; let sh ← getInts j "oshape"
       let sf ← getFloats j "shift"
-      let un ← getBool j "unitary"
+      let un ← match optVal j "unitary" with | some (Json.bool b) => pure b | _ => pure Gen.fwIdft2DefaultUnitary
       pure (okJ [("F", cfArrToJson (idft2 f al[0]! al[1]! sh[0]! sh[1]! sf[0]! sf[1]! un))])
   | "c01.roundtrip" => some do
       -- idft2 (dft2 f) with the same sampling, shape and flag on both sides
